@@ -85,6 +85,7 @@ class Family:
     def __init__(self, name, seeds: dict, labels: list[Label]):
         self.name = name
         self.seeds = seeds
+        self.mutable_seeds = {}      # the same receivers created with immutable=False FROM THE START (no builder call ever copied them)
         self.labels = {l.name: l for l in labels}
 
 
@@ -209,6 +210,13 @@ def families() -> dict[str, Family]:
                        L("returning#str", "returning", lambda r: r.returning("b")),
                        L("returning#star", "returning", lambda r: r.returning("*"))]
         fams["qb_" + d] = Family("qb_" + d, seeds, labels)
+        fams["qb_" + d].mutable_seeds = {
+            "from": lambda Q=Q: Q.from_(t1, immutable=False),
+            "full": lambda Q=Q: (Q.from_(t1, immutable=False).select(t1.a, fn.Sum(t1.b).as_("s")).join(t2).on(t1.a == t2.a).where(t1.a > 0)
+                                 .groupby(t1.a).having(fn.Sum(t1.b) > 1).orderby(t1.a).limit(10).offset(2)),
+            "insert": lambda Q=Q: Q.into(t1, immutable=False).columns("a", "b").insert(1, 2),
+            "update": lambda Q=Q: Q.update(t1, immutable=False).set(t1.a, 1).where(t1.b == 2),
+        }
 
     Q = P.Query
 
@@ -240,6 +248,7 @@ def families() -> dict[str, Family]:
     fams["create"] = Family("create", {
         "cols": lambda: Q.create_table("ct").columns(Column("a", "INT"), Column("b", "VARCHAR(5)", default="x")),
         "bare": lambda: Q.create_table("ct"),
+        "nullable": lambda: Q.create_table("ct").columns(Column("n", "INT", nullable=True), Column("a", "INT", nullable=False)),
         "full": lambda: (Q.create_table("ct").columns(Column("a", "INT")).period_for("p", "a", "b").unique("a")
                          .primary_key("a").if_not_exists()),
     }, [
@@ -253,6 +262,8 @@ def families() -> dict[str, Family]:
         L("unique", "unique", lambda r: r.unique("a", "b")),
         L("unique#2", "unique", lambda r: r.unique("c")),
         L("primary_key", "primary_key", lambda r: r.primary_key("b")),
+        L("primary_key#declared-null", "primary_key", lambda r: r.primary_key("n")),
+        L("unique#declared-null", "unique", lambda r: r.unique("n", "a")),
         L("as_select", "as_select", lambda r: r.as_select(q_a())),
         L("if_not_exists", "if_not_exists", lambda r: r.if_not_exists()),
         L("create_table", "create_table", lambda r: r.create_table("zz")),
